@@ -580,8 +580,8 @@ def rules(rep, m):
         base = cx.canon(kids(strip(lhs, casts=True))[0])
         hs = [cx.canon(r) for f2, l, r, k, n in inv.field_writers(m, "cmi_hashheap", "hash_size") if f2 is f]
         r4.instance("%s writes heap_size = %s, hash_size = %s" % (f.name, cx.canon(rhs), hs))
-        ok = any(re.fullmatch(r"\((2 \* %s->heap_size|%s->heap_size \* 2)\)" % (re.escape(base), re.escape(base)), h)
-                 for h in hs)
+        hsz = re.escape(base) + "->heap_size"
+        ok = any(re.fullmatch(r"\((2 \* %s|%s \* 2|%s << 1|%s \+ %s)\)" % (hsz, hsz, hsz, hsz, hsz), h) for h in hs)
         if not ok:
             rep.finding(r4, f.name, "hash-size", "%s sets heap_size but hash_size = %s (must be 2 * heap_size)"
                         % (f.name, hs), where=m.rel(loc(node)))
